@@ -8,7 +8,7 @@ from .c09 import gconv
 
 PROP = "C10"
 LEVEL = "exploration"
-CASES = {"quick": 900, "thorough": 45000}
+CASES = {"quick": 900, "thorough": 600000}
 SHARDS = {"quick": 8, "thorough": 16}
 ANCHORS = [
     "api.py:chain", "api.py:Converter.get_subconverter", "api.py:Converter._merge",
